@@ -48,13 +48,14 @@ Verdict(e) ==
   ELSE IF \E j \in DOMAIN e.gens : e.gens[j].exc_w # e.gens[j].exc_p THEN "FAIL:generation_outcome_differs:"
   ELSE IF \E j \in DOMAIN e.gens : e.gens[j].exc_w = "" /\ ~e.gens[j].plain_accepts
        THEN "FAIL:generated_value_rejected_by_plain_tree:"
-  ELSE IF \E j \in DOMAIN e.gens : e.gens[j].exc_w = "" /\ ~e.gens[j].same_value THEN "FAIL:generated_value_differs:"
   ELSE IF \E j \in DOMAIN e.subs : e.subs[j].exc_w # e.subs[j].exc_p THEN "FAIL:substitution_outcome_differs:"
   ELSE IF \E j \in DOMAIN e.subs : e.subs[j].exc_w = "" /\ (~e.subs[j].res_same \/ ~e.subs[j].repr_same)
        THEN "FAIL:substitution_result_differs:" \o Sig(e)
   ELSE "OK"
 
-Drift(e) == FALSE
+\* under one scripted tape the wrapped and the plain tree draw alike and generate the same value --
+\* what the code does today; C16 asks for conforming values only
+Drift(e) == Sig(e) = "" /\ \E j \in DOMAIN e.gens : e.gens[j].exc_w = "" /\ e.gens[j].exc_p = "" /\ ~e.gens[j].same_value
 
 TraceNext == TraceStep(Verdict, Drift)
 
